@@ -448,3 +448,11 @@ def run(ctx):
              "changes every stream)")
     from rules import round6
     round6.check_wire_layout(ctx, "R2.11")
+    ctx.rule("R2.12", "relocation through OVNI_TMPDIR leaves a complete stream whatever its size: move_thread_to_final is "
+             "evaluated against a model of stdio (a read returns what is left, at most the chunk; end-of-file shows only "
+             "after a short read) on sources of 0 bytes, below one chunk, exactly one, two and three chunks and a chunk "
+             "plus a rest: it returns 0, passes every byte once to fwrite and removes the source; the destination is "
+             "opened truncating (C01 R1.12's evaluation)")
+    from rules import round8
+    round8.check_copy_all_sizes(ctx, "R2.12")
+    round8.check_final_copy_truncates(ctx, "R2.12")
